@@ -685,3 +685,127 @@ Proof.
   intros E. unfold step_mode, cstep. rewrite E. destruct (t_jobs t) as [|[o|s o] js]; try discriminate.
   intros _. destruct (t_local t); reflexivity.
 Qed.
+
+(* ------------------------------------------------------------------ *)
+(** * regexp.QuoteMeta: the quoted text denotes exactly the literal *)
+
+Lemma L_chr c w : L (chr c) w <-> w = [c].
+Proof.
+  unfold chr. split.
+  - intros H. apply L_sym_inv in H as (c' & -> & Hm).
+    unfold sym_mem, in_ranges in Hm. cbn in Hm.
+    destruct (c <=? c') eqn:E1; destruct (c' <=? c) eqn:E2; cbn in Hm; try discriminate.
+    apply Z.leb_le in E1. apply Z.leb_le in E2. f_equal. lia.
+  - intros ->. constructor. unfold sym_mem, in_ranges. cbn. rewrite Z.leb_refl. reflexivity.
+Qed.
+
+Definition qcat (cur : re) (s : str) : re := fold_left (fun acc c => Cat acc (chr c)) s cur.
+
+Lemma L_qcat : forall s cur v, L (qcat cur s) v <-> exists u, v = u ++ s /\ L cur u.
+Proof.
+  induction s as [|c s IH]; intros cur v; cbn [qcat fold_left].
+  - split; [intros H; exists v; now rewrite app_nil_r| intros (u & -> & H); now rewrite app_nil_r].
+  - fold (qcat (Cat cur (chr c)) s). rewrite IH. split.
+    + intros (u & -> & H). apply L_cat_inv in H as (u1 & u2 & -> & H1 & H2). apply L_chr in H2 as ->.
+      exists u1. split; [now rewrite <- app_assoc|exact H1].
+    + intros (u & -> & H). exists (u ++ [c]). split; [now rewrite <- app_assoc|].
+      constructor; [exact H| now apply L_chr].
+Qed.
+
+Definition post_free (t : str) : Prop :=
+  match t with [] => True | q :: _ => q <> 42 /\ q <> 43 /\ q <> 63 /\ q <> 123 end.
+
+Lemma is_meta_false c : is_meta c = false ->
+  c <> 92 /\ c <> 46 /\ c <> 43 /\ c <> 42 /\ c <> 63 /\ c <> 40 /\ c <> 41 /\ c <> 124 /\
+  c <> 91 /\ c <> 93 /\ c <> 123 /\ c <> 125 /\ c <> 94 /\ c <> 36.
+Proof.
+  unfold is_meta. cbn [existsb]. intros H.
+  repeat (apply orb_false_iff in H as [?H H]).
+  repeat match goal with Hx : (c =? _) = false |- _ => apply Z.eqb_neq in Hx end.
+  repeat split; assumption.
+Qed.
+
+Lemma quote_post_free s : post_free (quote_meta s).
+Proof.
+  destruct s as [|c s]; cbn [quote_meta flat_map]; [exact I|].
+  destruct (is_meta c) eqn:E; cbn [app post_free].
+  - repeat split; discriminate.
+  - apply is_meta_false in E. tauto.
+Qed.
+
+Ltac neq_false :=
+  repeat match goal with
+  | H : ?c <> ?k |- context [?c =? ?k] => rewrite (proj2 (Z.eqb_neq c k) H)
+  end.
+
+Lemma post_step (a : re) (t : str) : post_free t ->
+  match t with
+  | [] => Some (a, t, false)
+  | q :: r2 =>
+      if q =? 42 then Some (Star a, r2, true)
+      else if q =? 43 then Some (Cat a (Star a), r2, true)
+      else if q =? 63 then Some (Alt a Eps, r2, true)
+      else if q =? 123 then
+        match p_repeat r2 with
+        | RepNone => Some (a, t, false)
+        | RepBad => None
+        | Rep mn mx r3 => Some (mk_rep a mn mx, r3, true)
+        end
+      else Some (a, t, false)
+  end = Some (a, t, false).
+Proof.
+  destruct t as [|q r2]; [reflexivity|]. cbn [post_free]. intros (H1 & H2 & H3 & H4). neq_false. reflexivity.
+Qed.
+
+Lemma p_re_plain f c t alts cur n : is_meta c = false -> post_free t ->
+  p_re (S f) (c :: t) alts cur n = p_re f t alts (Cat cur (chr c)) n.
+Proof.
+  intros Hm Hp. apply is_meta_false in Hm.
+  destruct Hm as (H92 & H46 & H43 & H42 & H63 & H40 & H41 & H124 & H91 & H93 & H123 & H125 & H94 & H36).
+  cbn [p_re]. unfold is_post. neq_false. cbn [orb].
+  rewrite (post_step (chr c) t Hp). cbn [andb]. now rewrite Nat.add_0_r.
+Qed.
+
+Lemma p_re_esc f c t alts cur n : is_meta c = true -> post_free t ->
+  p_re (S f) (92 :: c :: t) alts cur n = p_re f t alts (Cat cur (chr c)) n.
+Proof.
+  intros Hm Hp.
+  assert (Hc : (c =? 100) = false /\ (c <? 128) && negb (is_alnum c) = true).
+  { unfold is_meta in Hm. cbn [existsb] in Hm.
+    repeat (apply orb_true_iff in Hm as [Hm|Hm]); try discriminate;
+      apply Z.eqb_eq in Hm; subst c; split; reflexivity. }
+  destruct Hc as [H100 Hpunct].
+  cbn [p_re]. change (92 =? 41) with false. change (92 =? 124) with false. change (92 =? 40) with false.
+  change (92 =? 91) with false. change (92 =? 46) with false. change (92 =? 92) with true.
+  cbv iota. rewrite H100, Hpunct.
+  rewrite (post_step (chr c) t Hp). cbn [andb]. now rewrite Nat.add_0_r.
+Qed.
+
+Lemma p_re_quote : forall s fuel alts cur n, (length s < fuel)%nat ->
+  p_re fuel (quote_meta s) alts cur n = Some (addalt alts (qcat cur s), n, []).
+Proof.
+  induction s as [|c s IH]; intros fuel alts cur n Hf.
+  - destruct fuel; [cbn in Hf; lia|]. reflexivity.
+  - destruct fuel as [|f]; [cbn in Hf; lia|]. cbn [length] in Hf.
+    change (quote_meta (c :: s)) with ((if is_meta c then [92; c] else [c]) ++ quote_meta s).
+    destruct (is_meta c) eqn:E; cbn [app].
+    + rewrite p_re_esc by (auto using quote_post_free). rewrite IH by lia. reflexivity.
+    + rewrite p_re_plain by (auto using quote_post_free). rewrite IH by lia. reflexivity.
+Qed.
+
+Lemma quote_meta_length s : (length s <= length (quote_meta s))%nat.
+Proof.
+  induction s as [|c s IH]; [cbn; lia|].
+  change (quote_meta (c :: s)) with ((if is_meta c then [92; c] else [c]) ++ quote_meta s).
+  rewrite app_length. destruct (is_meta c); cbn [length]; lia.
+Qed.
+
+Theorem quote_meta_language s :
+  exists r, parse_re (quote_meta s) = Some (r, O) /\ forall v, L r v <-> v = s.
+Proof.
+  exists (qcat Eps s). split.
+  - unfold parse_re. rewrite p_re_quote by (pose proof (quote_meta_length s); lia). reflexivity.
+  - intros v. rewrite L_qcat. split.
+    + intros (u & -> & H). apply L_eps_inv in H as ->. reflexivity.
+    + intros ->. exists []. split; [reflexivity|constructor].
+Qed.
